@@ -261,6 +261,17 @@ impl<'a> PGen<'a> {
 }
 
 fn datum(rng: &mut Rng, level: usize) -> Cell {
+    // one datum in twelve is a list headed by a keyword (a prelude macro, a special form, the macro under
+    // test): inside the quoted expansion it is data and must come back untouched
+    if rng.chance(1, 12) {
+        let forms = crate::engines::c05::parse_forms(*rng.pick(&[
+            "(and 1 2)", "(or)", "(when a b)", "(unless a 1 2)", "(let ((a 1)) a)", "(let* () 1)", "(cond (a b) (else c))", "(case 1 ((1) a))", "(m 1)", "(m)", "(begin)", "(if a b)",
+            "(lambda (a) a)", "(quote a)", "(do ((i 0 (+ i 1))) ((= i 1) i))", "(delay 1)", "(define-syntax q (syntax-rules ()))", "(quasiquote (a (unquote b)))",
+        ]));
+        if let Some(f) = forms.into_iter().next() {
+            return f;
+        }
+    }
     match rng.usize(if level >= 2 { 4 } else { 7 }) {
         0 | 1 => int(rng.range(0, 50)),
         2 => sym(*rng.pick(&["a", "b", "c", "d"])),
